@@ -73,10 +73,15 @@ pub fn compare_shift(cx: &mut Cx, base: &Doc, s: &str, k: usize, n: usize, scale
     let (ew, eh) = if empty { (base.w, base.h) } else { (base.w + dx, base.h + dy) };
     if (d2.w - ew).abs() > tol || (d2.h - eh).abs() > tol {
         ok = false;
-        cx.fail(
-            "canvas",
-            format!("shift by ({},{}): canvas {}x{} expected {}x{} (origin canvas {}x{})", k, n, d2.w, d2.h, ew, eh, base.w, base.h),
-        );
+        let detail = format!("shift by ({},{}): canvas {}x{} expected {}x{} (origin canvas {}x{})", k, n, d2.w, d2.h, ew, eh, base.w, base.h);
+        // known finding: quoted text is not part of the canvas computation, so a drawing that
+        // consists of quoted text only keeps the minimal canvas wherever it is
+        let (blanked, quoted) = crate::props::c15::blank_and_texts(s);
+        if !quoted.is_empty() && blanked.chars().all(|c| c.is_whitespace()) && !s.contains('\\') {
+            cx.fail_kf("canvas", detail, "c06-quoted-only-canvas-does-not-move");
+        } else {
+            cx.fail("canvas", detail);
+        }
     }
     // grouping must be preserved as well: same number of groups
     if d2.groups != base.groups {
@@ -128,6 +133,52 @@ impl Prop for C06 {
                 }
             },
         ));
+        v.push(Scope::new(
+            "circle-defects",
+            "every catalogue circle with one of its cells blanked or replaced by '-' (three-quarter and half arcs with attached remains) x 3 offsets",
+            move |f| {
+                for art in shapes::catalog() {
+                    let g: Vec<Vec<char>> = art.split('\n').map(|l| l.chars().collect()).collect();
+                    for r in 0..g.len() {
+                        for c in 0..g[r].len() {
+                            if g[r][c] == ' ' {
+                                continue;
+                            }
+                            for rep in [' ', '-'] {
+                                if rep == g[r][c] {
+                                    continue;
+                                }
+                                let mut h = g.clone();
+                                h[r][c] = rep;
+                                f(Case::sn(h.iter().map(|r| r.iter().collect::<String>()).collect::<Vec<_>>().join("\n"), vec![0]));
+                            }
+                        }
+                    }
+                }
+            },
+        ));
+        v.push(Scope::new(
+            "divided-boxes",
+            "boxes divided by a T-junction, +---+---+ with both widths 1..20 (interior points of long lines) x 24 offsets",
+            move |f| {
+                for w1 in 1..=20usize {
+                    for w2 in 1..=20usize {
+                        let top = format!("+{}+{}+", "-".repeat(w1), "-".repeat(w2));
+                        let mid = format!("|{}|{}|", " ".repeat(w1), " ".repeat(w2));
+                        f(Case::sn(format!("{}\n{}\n{}", top, mid, top), vec![1]));
+                    }
+                }
+            },
+        ));
+        v.push(Scope::new(
+            "quoted-only",
+            "inputs whose only content is quoted text (the canvas must still move with the drawing)",
+            |f| {
+                for d in ["\"hello\"", "\"a\" \"b\"", " \"一二\"", "\"x\"\n\"y\""] {
+                    f(Case::sn(d, vec![0]));
+                }
+            },
+        ));
         let pair_off = if tier == Tier::Quick { 0 } else { 1 };
         v.push(Scope::new(
             "nbhd2",
@@ -139,6 +190,35 @@ impl Prop for C06 {
             },
         ));
         if tier == Tier::Thorough {
+            v.push(Scope::new(
+                "long-diagonal-junctions",
+                "diagonals of 60, 90 and 120 cells in both directions with a two-cell horizontal stub attached at every third row, on either side x 24 offsets",
+                move |f| {
+                    for l in [60usize, 90, 120] {
+                        for dir in [2u8, 3] {
+                            for r in (1..l - 1).step_by(3) {
+                                for side in 0..2 {
+                                    let mut cv = shapes::Canvas::new();
+                                    for i in 0..l as i32 {
+                                        let x = if dir == 2 { i } else { l as i32 - 1 - i };
+                                        cv.put(x + 3, i, if dir == 2 { '\\' } else { '/' });
+                                        if i as usize == r {
+                                            if side == 0 {
+                                                cv.put(x + 4, i, '-');
+                                                cv.put(x + 5, i, '-');
+                                            } else {
+                                                cv.put(x + 2, i, '-');
+                                                cv.put(x + 1, i, '-');
+                                            }
+                                        }
+                                    }
+                                    f(Case::sn(cv.render(), vec![1]));
+                                }
+                            }
+                        }
+                    }
+                },
+            ));
             v.push(Scope::new(
                 "sparse3",
                 "all 3x3 grids with at most 3 non-blank cells over the ASCII drawing alphabet x 3 offsets",
